@@ -1,33 +1,7 @@
--- GENERATED by harness/extract_steps.py from ptera/overlay.py, ptera/transform.py — do not edit
+-- GENERATED (fallback: extraction failed: ExtractError: SyncedStackedTransforms.push: unrecognised statement at line 1206)
 import PteraModel.Model.Sched
 namespace Ptera.Generated.Steps
 open Ptera.Sched
-
-/-- `_tooler(fn, captures)`: (file, line, atomic steps of that line), in program order -/
-def toolerLines : List (String × Nat × List Step) := [
-  ("overlay.py", 411, [Step.readStack]),
-  ("overlay.py", 414, [Step.createStackIfAbsent]),
-  ("transform.py", 1167, [Step.readCount, Step.writeCountInc]),
-  ("transform.py", 1169, [Step.capsAdd]),
-  ("transform.py", 1177, [Step.getReadCount]),
-  ("transform.py", 1180, [Step.getReadCaps]),
-  ("transform.py", 1181, [Step.lookupVariant]),
-  ("transform.py", 1210, [Step.readCode]),
-  ("transform.py", 1214, [Step.writeCode]),
-  ("transform.py", 1215, [Step.writeMeta]),
-  ("transform.py", 1216, [Step.writeMeta])]
-
-/-- `_untooler(fn, captures)` -/
-def untoolerLines : List (String × Nat × List Step) := [
-  ("overlay.py", 421, [Step.readStack]),
-  ("transform.py", 1172, [Step.readCount, Step.writeCountDec]),
-  ("transform.py", 1174, [Step.capsSub]),
-  ("transform.py", 1177, [Step.getReadCount]),
-  ("transform.py", 1180, [Step.getReadCaps]),
-  ("transform.py", 1181, [Step.lookupVariant]),
-  ("transform.py", 1210, [Step.readCode]),
-  ("transform.py", 1214, [Step.writeCode]),
-  ("transform.py", 1215, [Step.writeMeta]),
-  ("transform.py", 1216, [Step.writeMeta])]
-
+def toolerLines : List (String × Nat × List Step) := []
+def untoolerLines : List (String × Nat × List Step) := []
 end Ptera.Generated.Steps
